@@ -148,6 +148,9 @@ func randDoc(r *rand.Rand, nonEmptyLists bool) (M, *docGen) {
 			if i == 1 { // URI references that are not absolute URIs are also-known-as values too
 				u = []string{"identity2", "profile/alice", "#me", "?q=2", "//host.example/p", "urn:example:2", "mailto:a@example.com"}[r.Intn(7)]
 			}
+			if i == 0 && r.Intn(3) == 0 { // spellings a URI normaliser would change: kept as given
+				u = []string{"HTTPS://blog.example/alice", "https://blog.example/alice#", "https://blog.example/zoë", "https://Blog.Example/a", "https://blog.example/%7Ealice", "https://blog.example/a?"}[r.Intn(6)]
+			}
 			g.akas = append(g.akas, u)
 			as = append(as, u)
 		}
@@ -155,6 +158,12 @@ func randDoc(r *rand.Rand, nonEmptyLists bool) (M, *docGen) {
 	}
 	for i := r.Intn(3); i > 0; i-- {
 		d[otherNames[r.Intn(len(otherNames))]] = simpleValue(r, 2)
+	}
+	if r.Intn(4) == 0 { // text that looks like an escape sequence is text
+		d["note"] = []string{"a\\u0026b", "\\u003cb\\u003e", "x\\u0026", "\\\\u0026", "tab\\tnot a tab"}[r.Intn(5)]
+		if ss, ok := d["service"].(A); ok && len(ss) > 0 {
+			ss[0].(M)["description"] = "R\\u0026D \\u003e all"
+		}
 	}
 	if nonEmptyLists {
 		if _, ok := d["publicKey"]; ok && len(d["publicKey"].(A)) == 0 {
@@ -284,6 +293,23 @@ func genC10(seed int64, tier string) []caseOut {
 			emit(fmt.Sprintf("systematic,remove-keys-mask-%d", mask), mkDoc(), A{M{"action": "remove-public-keys", "ids": kid}})
 			emit(fmt.Sprintf("systematic,remove-services-mask-%d", mask), mkDoc(), A{M{"action": "remove-services", "ids": sid}})
 			emit(fmt.Sprintf("systematic,remove-aka-mask-%d", mask), mkDoc(), A{M{"action": "remove-also-known-as", "uris": aid}})
+		}
+		// entries re-stated with another set of members: the new entry replaces the old one whole
+		for j := 0; j < 4; j++ {
+			old := mkDoc()
+			old["publicKey"].(A)[j].(M)["purposes"] = A{"authentication", "assertionMethod"}
+			old["service"].(A)[j].(M)["priority"] = 1.0
+			old["service"].(A)[j].(M)["routingKeys"] = A{"did:example:r#k"}
+			bare := M{"id": ids[j], "type": "Ed25519VerificationKey2018", "publicKeyBase58": "GY4GunSXBPBfhLCzDL7iGmP5dR3sBDCJZkkaGK8VgYQf"}
+			emit(fmt.Sprintf("systematic,restate-key-other-members-%d", j), old, A{M{"action": "add-public-keys", "publicKeys": A{bare}}})
+			emit(fmt.Sprintf("systematic,restate-service-other-members-%d", j), old,
+				A{M{"action": "add-services", "services": A{M{"id": "s" + ids[j], "type": "Plain", "serviceEndpoint": "https://plain.example"}}}})
+		}
+		// also-known-as values are compared as the strings they are: other spellings of "the same" URI are other values
+		for j, alt := range []string{"HTTPS://aka.example/0", "https://aka.example/0#", "https://AKA.example/0", "https://aka.example/%30", "https://aka.example/0?"} {
+			emit(fmt.Sprintf("systematic,add-aka-other-spelling-%d", j), mkDoc(), A{M{"action": "add-also-known-as", "uris": A{alt}}})
+			emit(fmt.Sprintf("systematic,remove-aka-other-spelling-%d", j), mkDoc(), A{M{"action": "remove-also-known-as", "uris": A{alt}}})
+			emit(fmt.Sprintf("systematic,add-aka-two-patches-other-spelling-%d", j), M{}, A{M{"action": "add-also-known-as", "uris": A{alt}}, M{"action": "add-also-known-as", "uris": A{"https://aka.example/0"}}})
 		}
 		for j := 0; j < 4; j++ {
 			emit(fmt.Sprintf("systematic,restate-key-%d", j), mkDoc(), A{M{"action": "add-public-keys", "publicKeys": A{validKey(fr, ids[j]), validKey(fr, "new")}}})
@@ -423,6 +449,43 @@ func genC11(seed int64, tier string) []caseOut {
 					})
 				}
 			}
+		}
+	}
+	// pointers carrying quotes, backslashes and text that looks like further members or operations:
+	// a verdict or a rebuilt operation must never depend on how an operation list prints
+	{
+		fr := rand.New(rand.NewSource(13))
+		doc := M{"publicKey": A{validKey(fr, "key1")}, "service": A{validService(fr, "svc1")}, "other": M{"k": 1.0, "c": M{"d": 2.0}}, "a": M{"evil": A{M{"id": "evil"}}}}
+		lists := []A{
+			{M{"op": "copy", "from": "/a", "path": "/a/c\",\"path\":\"/service"}},
+			{M{"op": "copy", "from": "/a", "path": "/a/c\",\"path\":\"/publicKey"}},
+			{M{"op": "copy", "from": "/a\",\"from\":\"/publicKey", "path": "/a/x"}},
+			{M{"op": "move", "from": "/other/c", "path": "/other/c2\",\"path\":\"/service"}},
+			{M{"op": "add", "path": "/note\"", "value": "x"}},
+			{M{"op": "add", "path": "/no\\te", "value": "x"}},
+			// a harmless single operation whose Go %v rendering equals that of the two-operation list after it
+			{M{"op": "add", "path": "/x value:1] map[op:remove path:/service/0"}},
+			{M{"op": "add", "path": "/x", "value": 1.0}, M{"op": "remove", "path": "/service/0"}},
+			{M{"op": "add", "path": "/x value:1] map[op:remove path:/publicKey"}},
+			{M{"op": "add", "path": "/x", "value": 1.0}, M{"op": "remove", "path": "/publicKey"}},
+			{M{"op": "remove", "path": "/other/k] map[from:/publicKey op:move path:/stolen"}},
+			{M{"op": "remove", "path": "/other/k"}, M{"op": "move", "from": "/publicKey", "path": "/stolen"}},
+		}
+		for li, ops := range lists {
+			p := M{"action": "ietf-json-patch", "patches": ops}
+			valid, _ := implValidate(p)
+			var res M
+			ok := false
+			if valid {
+				res, ok, _, _ = implApply(doc, A{p})
+			}
+			h := sha256.Sum256([]byte(fmt.Sprint("quoted", li)))
+			out = append(out, caseOut{
+				Coq:    fmt.Sprintf("(mk_c11 %s %s %s %s)", cObj(normJSON(doc).(map[string]interface{})), cJSON(normJSON(p)), cBool(valid), coqOptObj(res, ok)),
+				Rec:    map[string]interface{}{"document": doc, "patch": p, "impl_valid": valid, "impl_applied": ok, "impl_result": res},
+				Label:  fmt.Sprintf("quoted-or-ambiguous:%d", li),
+				NonTri: fmt.Sprintf("%x", h[:8]),
+			})
 		}
 	}
 	// a validated ietf-json-patch followed by dedicated key / service actions that change nothing
